@@ -236,7 +236,7 @@ def mc_tree(depth):
 def p_c02(q):
     if q:
         return [mc_router('T'), mc_tree(4), gen_bfs('O', 4, module='MC_RouterO', consts={'L': 4}, sample=0.012), gen_bfs('O', 3, name='bfsO3', module='MC_RouterO', consts={'L': 4}, dump=True), gogen('addonly', 80)]
-    return [mc_router('T'), mc_tree(6), REPOTESTS, gen_bfs('O', 4, module='MC_RouterO', consts={'L': 5}, dump=True, sample=0.15), gen_bfs('O', 3, name='bfsO3', module='MC_RouterO', consts={'L': 5}, dump=True), gen_bfs('O', 2, name='bfsO2L6', module='MC_RouterO', consts={'L': 6}),
+    return [mc_router('T'), mc_tree(6), REPOTESTS, gen_bfs('O', 4, module='MC_RouterO', consts={'L': 5}, dump=True, sample=0.03), gen_bfs('O', 3, name='bfsO3', module='MC_RouterO', consts={'L': 5}, dump=True), gen_bfs('O', 2, name='bfsO2L6', module='MC_RouterO', consts={'L': 6}),
             gogen('addonly', 2000)]
 
 
@@ -310,7 +310,7 @@ def p_dump(q):
 
 
 ROUTER_PLANS = {
-    'TD': p_dump, 'TL': (lambda q: lock_stages(q) + globals_stages(q)), 'TW': p_dbg('Wd', 2),
+    'TD': p_dump, 'TL': (lambda q: lock_stages(q) + globals_stages(q)), 'TW': p_dbg('Wd', 2), 'TO': (lambda q: [gen_bfs('O', 4, module='MC_RouterO', consts={'L': 5}, dump=True, sample=0.02, props=['C02'])]),
     'C18': p_c18,
     'C19': p_c19, 'C09': p_c09,
     'C10': p_c10,
